@@ -331,25 +331,21 @@ pub fn execute(prog: &Program, prefix: &[u8], cfg: &ExecCfg) -> Exec {
         s.harness_op.set(1);
         s.step.set(out.steps + 1);
     });
-    let drain = sched::as_harness(true, || {
-        let r = std::panic::catch_unwind(std::panic::AssertUnwindSafe(|| {
-            shared
-                .level
-                .match_order(DRAIN_QTY, oid(999), &shared.generator)
-        }));
-        match r {
-            Ok(r) => {
-                let ids = r
-                    .transactions
-                    .as_vec()
-                    .iter()
-                    .map(|t| t.transaction_id)
-                    .collect();
-                OpResult::Matched(match_obs(&r), ids)
-            }
-            Err(_) => OpResult::Panicked("drain panicked".into()),
-        }
-    });
+    let drain = sched::as_harness_budgeted(true, 20_000, || {
+        let r = shared
+            .level
+            .match_order(DRAIN_QTY, oid(999), &shared.generator);
+        let ids = r
+            .transactions
+            .as_vec()
+            .iter()
+            .map(|t| t.transaction_id)
+            .collect();
+        OpResult::Matched(match_obs(&r), ids)
+    })
+    .unwrap_or(OpResult::Panicked(
+        "the draining match did not return within 20000 shared-memory operations (or panicked)".into(),
+    ));
     let post_drain = sched::as_harness(false, || observe(&shared.level));
     let log = sched::take_log();
     let results = shared.results.borrow().clone();
@@ -757,7 +753,8 @@ pub fn evaluate(prog: &Program, ex: &Exec, want_c14: bool) -> Vec<Finding> {
                     "after the draining match the level still reports visible quantity {}", ex.post_drain.vis));
             }
         }
-        _ => add("C08", "drain_failed", false, "the draining match panicked".into()),
+        OpResult::Panicked(m) => add("C08", "drain_failed", false, m.clone()),
+        _ => add("C08", "drain_failed", false, "the draining match failed".into()),
     }
 
     // ---- C12
@@ -820,6 +817,10 @@ pub fn evaluate(prog: &Program, ex: &Exec, want_c14: bool) -> Vec<Finding> {
                     }
                 }
                 UpdObs::Order(_) if is_cancel => {
+                    if !links.iter().any(|l| l.holder == *who && l.id == target) {
+                        add("C13", "cancel_without_removal", false, format!(
+                            "{op:?} of thread {} reported success but never took #{target} out of the book itself (whoever took it trades it / hands it out as well)", who.0));
+                    }
                     if let Some(l) = links.iter().find(|l| l.holder == *who && l.id == target) {
                         let later_insert = ex.log.iter().enumerate().any(|(i, e)| {
                             i > l.out_idx
